@@ -573,6 +573,14 @@ func (j *batchJudge) finish(dropExcused bool) {
 			return
 		}
 	}
+	if j.resendOnly {
+		// every payload of this batch was built for a retry (the first attempt never
+		// reached the sink): a coverage gap is the same observation as a malformed
+		// retried payload
+		j.fails = append(j.fails, &failure{Site: "resend", Fail: "payload-built-for-a-retry-violates-the-oracle", Idx: firstMissing,
+			Detail: fmt.Sprintf("%d of %d deliverable events never appeared in an accepted payload of the retried batch (first: #%d %s)", missing, len(j.exp), firstMissing, j.exp[firstMissing].ID)})
+		return
+	}
 	j.fails = append(j.fails, &failure{Site: "coverage", Fail: "events-missing-from-accepted-payloads", Idx: firstMissing,
 		Detail:  fmt.Sprintf("%d of %d deliverable events never appeared in an accepted payload (first: #%d %s)", missing, len(j.exp), firstMissing, j.exp[firstMissing].ID),
 		Trigger: j.s.trigger("coverage", &j.exp[firstMissing], j.b)})
